@@ -81,6 +81,7 @@ func checkC05(p *Prog, r *Report) {
 	c05Siblings(p, r)
 	c05FlagToChildren(p, r)
 	c05Sentences(p, r)
+	c05CommentNotTerm(p, r)
 	// R05g: text rendered by the translator itself is spliced into application position
 	r.Rule("R05g", "the translator renders sub-expressions to text only with needs_paren=true (it splices that text into argument positions of hand-built applications such as the struct-to-interface conversion)", 3)
 	n := 0
